@@ -26,6 +26,8 @@ ASSUMPTIONS = ['key universes of <= 5 keys, node sizes 2/2 (3/2 in thorough)',
                'byValue, message texts and the return value of update() are not compared']
 
 TAG = '@@'
+import os
+CAP = int(os.environ.get('VERIF_CAP', '60'))
 
 
 class Cmp:
@@ -177,7 +179,8 @@ def configs(tier):
             tree = kind in F.TREE_KINDS
             if fam in deep:
                 if tier == 'quick':
-                    out.append((fam, kind, (2, 2) if tree else None, 4, 'centred', 30 if tree else 3))
+                    out.append((fam, kind, (2, 2) if tree else None, 5 if tree else 4, 'centred',
+                                30 if tree else 3))
                     if fam[0] == 'O' and tree:
                         out.append((fam, kind, (2, 2), 3, 'none', 5))
                 else:
@@ -209,27 +212,64 @@ def alphabet(ctx, keys, grid, vals):
     writes = []
     vwrites = []
     for w in WEIRD:
+        if w == (TAG, 'nan') and ctx.fam[0] == 'O':
+            # nan is not orderable: outside the object-key domain (as a VALUE it stays in)
+            kreads, kwrites = [], []
+        else:
+            kreads, kwrites = reads, writes
         if ctx.is_map:
-            reads += [('get', w), ('get', w, 'D'), ('getitem', w), ('contains', w), ('has_key', w)]
-            writes += [('setitem', w, v0), ('setdefault', w, v0), ('delitem', w), ('pop', w),
+            kreads += [('get', w), ('get', w, 'D'), ('getitem', w), ('contains', w), ('has_key', w)]
+            kwrites += [('setitem', w, v0), ('setdefault', w, v0), ('delitem', w), ('pop', w),
                        ('pop', w, 'D'), ('update', 'pairs', ((w, v0),)),
                        ('update', 'dict', ((w, v0),))]
             if ctx.kind == 'BTree':
-                writes.append(('insert', w, v0))
+                kwrites.append(('insert', w, v0))
             vwrites += [('setitem', k0, w), ('setitem', knew, w), ('setdefault', k0, w),
                         ('setdefault', knew, w), ('update', 'pairs', ((knew, w),))]
             if ctx.kind == 'BTree':
                 vwrites.append(('insert', knew, w))
         else:
-            reads += [('contains', w), ('has_key', w)]
-            writes += [('add', w), ('insert', w), ('remove', w), ('discard', w),
+            kreads += [('contains', w), ('has_key', w)]
+            kwrites += [('add', w), ('insert', w), ('remove', w), ('discard', w),
                        ('update', 'list', (w,)), ('ior', 'list', (w,)), ('isub', 'list', (w,)),
                        ('iand', 'list', (w,)), ('ixor', 'list', (w,))]
-        reads += [('minKey', w), ('maxKey', w), ('rkeys', w, None), ('rkeys', None, w)]
+        kreads += [('minKey', w), ('maxKey', w), ('rkeys', w, None), ('rkeys', None, w)]
     for g in gap[:2]:
         reads += [('minKey', g), ('maxKey', g)]
     reads += [('minKey',), ('maxKey',)]
     return ops, reads, writes, vwrites
+
+
+def key_arg(op):
+    """The (weird) key argument of a read/write op."""
+    name = op[0]
+    if name == 'update':
+        x = op[2][0]
+        return x[0] if op[1] in ('pairs', 'dict') else x
+    if name in ('ior', 'isub', 'iand', 'ixor'):
+        return op[2][0]
+    if name == 'rkeys':
+        return op[1] if op[1] is not None else op[2]
+    return op[1] if len(op) > 1 else None
+
+
+def value_arg(op):
+    return op[2][0][1] if op[0] == 'update' else op[2]
+
+
+def norm(x):
+    """nan -> token, so that structures holding nan compare equal to themselves."""
+    if isinstance(x, float) and x != x:
+        return 'NaN'
+    if isinstance(x, tuple):
+        return tuple(norm(i) for i in x)
+    if isinstance(x, list):
+        return [norm(i) for i in x]
+    return x
+
+
+def eq_contents(a, b):
+    return a == b or norm(a) == norm(b)
 
 
 def apply(ctx, t, op):
@@ -252,6 +292,16 @@ def same(op, a, b):
     if op[0] in ('update', 'clear', 'setitem', 'delitem', 'discard', 'remove'):
         return True
     x, y = a[1], b[1]
+    if op[0] == 'has_key':
+        return bool(x) == bool(y)
+    if isinstance(x, (int, float)) and isinstance(y, (int, float)) and x != y:
+        # float-valued families: setdefault() of the C implementation hands back the
+        # caller's object, Python the converted one; equal after single-precision rounding
+        try:
+            import struct
+            return struct.pack('f', x) == struct.pack('f', y)
+        except Exception:       # noqa
+            return False
     if x != x and y != y:       # nan
         return True
     try:
@@ -274,16 +324,26 @@ def job(fam, kind, sizes, n, variant):
     guards = collections.Counter()
     outcomes = collections.Counter()
     violations = []
+    known = []
+    from .. import findings as FM
     base = dict(fam=fam, kind=kind, sizes=sizes, n=n, variant=variant)
 
     def report(hist, op, site, cls, detail, **kw):
-        if len(violations) < 3000:
-            sig = dict(fam=fam, kind=kind, site=site, cls=cls, variant=variant)
+        if len(violations) < 3000 or CAP > 3000:
+            sig = dict(fam=fam, kind=kind, site=site, cls=cls, variant=variant,
+                       ktype=fam[0] if fam[0] in 'Of' else 'int',
+                       vtype=fam[1] if fam[1] in 'OFs' else 'int')
             sig.update(kw)
-            violations.append(dict(prop='C09', sig=sig,
-                                   case=dict(base, history=list(hist), op=op,
-                                             klass=kw.get('klass', 'normal')),
-                                   detail=detail))
+            v = dict(prop='C09', sig=sig,
+                     case=dict(base, history=list(hist), op=op, klass=kw.get('klass', 'normal')),
+                     detail=detail)
+            if FM.match('C09', sig) is not None:
+                if len(known) < 4000:
+                    known.append(v)
+                else:
+                    guards['known_dropped'] += 1
+            else:
+                violations.append(v)
 
     def rebuild(hist):
         a, b = cc.new(), pc.new()
@@ -300,7 +360,7 @@ def job(fam, kind, sizes, n, variant):
     transitions = 0
     sample = None
     while frontier:
-        if len(violations) >= 60:
+        if len(violations) >= CAP:
             break
         hist, key = frontier.popleft()
         a, b = rebuild(hist)
@@ -329,27 +389,25 @@ def job(fam, kind, sizes, n, variant):
             kt = fam[0]
             argcat = ''
             if klass in ('read', 'write'):
-                arg = op[2][0][0] if op[0] == 'update' else (
-                    op[2][0] if op[0] in ('ior', 'isub', 'iand', 'ixor') else (
-                        w if op[0] != 'rkeys' or op[1] is not None else op[2]))
+                arg = key_arg(op)
                 argcat = category(kt, arg)
                 guards['weird_reads' if klass == 'read' else 'weird_writes'] += 1
             elif klass == 'vwrite':
-                arg = op[2][0][1] if op[0] == 'update' else op[2]
+                arg = value_arg(op)
                 argcat = category(fam[1], arg)
                 guards['weird_values'] += 1
             if not same(op, ra, rb):
                 report(hist, op, op[0], 'result', 'op %r: C %r, Py %r' % (op, ra, rb),
                        argcat=argcat, klass=klass, c_out=ra[1] if ra[0] == 'exc' else 'ok',
-                       py_out=rb[1] if rb[0] == 'exc' else 'ok')
+                       py_out=rb[1] if rb[0] == 'exc' else 'ok', empty=before == ('ok', []))
             try:
-                da, db = C.dump(a, tree), C.dump(b, tree)
+                da, db = norm(C.dump(a, tree)), norm(C.dump(b, tree))
             except Exception as e:      # noqa
                 report(hist, op, op[0], 'dump-failed', repr(e), argcat=argcat, klass=klass)
                 a, b = rebuild(hist)
                 continue
             ca, cb = O.outcome(O.contents, cc, a), O.outcome(O.contents, pc, b)
-            if ca != cb:
+            if not eq_contents(ca, cb):
                 report(hist, op, op[0], 'contents', 'after %r: C %r, Py %r' % (op, ca, cb),
                        argcat=argcat, klass=klass)
             elif da != db:
@@ -359,6 +417,9 @@ def job(fam, kind, sizes, n, variant):
             if klass in ('read', 'write', 'vwrite'):
                 rep = (representable_value(fam, arg) if klass == 'vwrite'
                        else representable_key(fam, arg))
+                if (rep is False and op[0] == 'setdefault' and before[0] == 'ok'
+                        and any(kv[0] == op[1] for kv in before[1])):
+                    rep = None      # key present: setdefault writes nothing, no rule applies
                 if rep is False:
                     for impl, r, cont in (('c', ra, ca), ('py', rb, cb)):
                         exp = expected_unusable(op, klass)
@@ -367,20 +428,23 @@ def job(fam, kind, sizes, n, variant):
                                    '%s: op %r with unrepresentable argument -> %r' % (impl, op, r),
                                    argcat=argcat, klass=klass, impl=impl,
                                    out=r[1] if r[0] == 'exc' else 'ok')
-                        if klass != 'read' and cont != before and exp is not None:
+                        if klass != 'read' and not eq_contents(cont, before) and exp is not None:
                             report(hist, op, op[0], 'unusable-changed',
                                    '%s: op %r changed contents %r -> %r' % (impl, op, before, cont),
                                    argcat=argcat, klass=klass, impl=impl)
             nk = (da, db)
             if nk != key:
-                if da == db and ca == cb and nk not in seen:
+                # only the normal alphabet expands the frontier: successors created by
+                # argument-alphabet ops (foreign but storable keys in object-keyed
+                # families) are compared but not explored further
+                if klass == 'normal' and da == db and eq_contents(ca, cb) and nk not in seen:
                     seen.add(nk)
                     states += 1
                     frontier.append((hist + (op,), nk))
                 a, b = rebuild(hist)
     return dict(states=states, transitions=transitions, compared=transitions,
                 evaluations=transitions, distinct=states, exhaustive=True,
-                guards=dict(guards), outcomes=dict(outcomes), violations=violations,
+                guards=dict(guards), outcomes=dict(outcomes), violations=violations + known,
                 sample=sample)
 
 
@@ -427,7 +491,7 @@ def replay(case):
         out.append(dict(prop='C09', sig=dict(site=op[0], cls='result'), case=case,
                         detail='op %r: C %r, Py %r' % (op, ra, rb)))
     ca, cb = O.outcome(O.contents, cc, a), O.outcome(O.contents, pc, b)
-    if ca != cb:
+    if not eq_contents(ca, cb):
         out.append(dict(prop='C09', sig=dict(site=op[0], cls='contents'), case=case,
                         detail='C %r, Py %r' % (ca, cb)))
     elif C.dump(a, tree) != C.dump(b, tree):
@@ -436,22 +500,20 @@ def replay(case):
     klass = case.get('klass', 'normal')
     if klass in ('read', 'write', 'vwrite'):
         if klass == 'vwrite':
-            arg = op[2][0][1] if op[0] == 'update' else op[2]
-            rep = representable_value(fam, arg)
+            rep = representable_value(fam, value_arg(op))
         else:
-            w = op[1] if len(op) > 1 else None
-            arg = op[2][0][0] if op[0] == 'update' else (
-                op[2][0] if op[0] in ('ior', 'isub', 'iand', 'ixor') else (
-                    w if op[0] != 'rkeys' or op[1] is not None else op[2]))
-            rep = representable_key(fam, arg)
+            rep = representable_key(fam, key_arg(op))
         exp = expected_unusable(op, klass)
+        if (op[0] == 'setdefault' and before[0] == 'ok'
+                and any(kv[0] == op[1] for kv in before[1])):
+            rep = None
         if rep is False and exp is not None:
             for impl, r, cont in (('c', ra, ca), ('py', rb, cb)):
                 if not exp(r):
                     out.append(dict(prop='C09', sig=dict(site=op[0], cls='unusable-' + klass, impl=impl),
                                     case=case, detail='%s: op %r with unrepresentable argument -> %r'
                                                       % (impl, op, r)))
-                if klass != 'read' and cont != before:
+                if klass != 'read' and not eq_contents(cont, before):
                     out.append(dict(prop='C09', sig=dict(site=op[0], cls='unusable-changed', impl=impl),
                                     case=case, detail='%s: op %r changed contents %r -> %r'
                                                       % (impl, op, before, cont)))
